@@ -12,6 +12,8 @@ def parse(filename):
         for line in f.readlines():
             if line.strip():
                 words = line.split()
+                if len(words) < 2:
+                    raise Exception("Patch line must have a definition name and an action: %s" % line.strip())
                 name, action = words[:2]
                 params = words[2:]
                 patches[name].append(Action(action, params))
